@@ -253,7 +253,14 @@ pub fn handle_event_remote_check_native(server: bool, migration: bool, same_remo
     conn.handle_event(ConnectionEvent(ConnectionEventInner::Datagram(DatagramConnectionEvent { now, remote, ecn: None, first_decode, remaining })));
     let may_process = same_remote || (server && migration);
     if may_process {
-        assert!(conn.stats.udp_rx.datagrams == rx0 + 1 && conn.path.total_recvd == recvd0 + len);
+        assert!(conn.stats.udp_rx.datagrams == rx0 + 1);
+        if same_remote {
+            assert!(conn.path.total_recvd == recvd0 + len, "a datagram from the path's own address was not credited in full");
+        } else {
+            // looked at (it could start a migration - not during the handshake, though), but it says nothing about
+            // the peer at the current path's address
+            assert!(conn.path.remote == addr(1, 4433) && conn.path.total_recvd == recvd0, "a datagram from another address raised the send budget of the current path");
+        }
         1
     } else {
         assert!(conn.stats.udp_rx.datagrams == rx0, "datagram from a foreign address was processed");
@@ -1272,6 +1279,64 @@ fn deliver_short(conn: &mut Connection, now: Instant, remote: SocketAddr, pn: u8
     v.extend_from_slice(&[0, 0, 0]); // PADDING; the last byte is what the stand-in AEAD checks (tag 0)
     let (first_decode, remaining) = PartialDecode::new(BytesMut::from(&v[..]), &FixedLengthConnectionIdParser::new(8), &[1], true).ok().expect("decodes");
     conn.handle_event(ConnectionEvent(ConnectionEventInner::Datagram(DatagramConnectionEvent { now, remote, ecn: None, first_decode, remaining })));
+}
+
+/// Native replay body for the E2 queries `e2_handle_event_credits_own_path_only` / `e2_handle_coalesced_credits_own_path_only`
+/// (C07 / C15), on an established server that permits migration, currently talking to `home`.  The send budget of
+/// an unvalidated path is three times what was received FROM THAT ADDRESS: datagrams that arrive from somewhere
+/// else and do not make the connection migrate - undecryptable ones (anyone who has seen the connection ID can
+/// send those), reordered or probing-only genuine ones, coalesced or not - must not raise it.  mode 2 / 3 are
+/// what must keep working: a datagram from the path's own address is credited in full, a migrating one is
+/// credited to the NEW path.
+pub fn foreign_datagram_credit_native(mode: u8) -> u32 {
+    let mut conn = mk_migratable_server();
+    let now = crate::verif::mk_instant(51, 0).unwrap();
+    let (home, other) = (addr(1, 4433), addr(66, 7777));
+    deliver_short(&mut conn, now, home, 10, &[0x01]);
+    assert!(conn.path.remote == home && conn.spaces[SpaceId::Data].rx_packet == 10);
+    let before = conn.path.total_recvd;
+    let deliver = |conn: &mut Connection, from: SocketAddr, v: &[u8]| {
+        let (first_decode, remaining) = PartialDecode::new(BytesMut::from(v), &FixedLengthConnectionIdParser::new(8), &[1], true).ok().expect("decodes");
+        conn.handle_event(ConnectionEvent(ConnectionEventInner::Datagram(DatagramConnectionEvent { now, remote: from, ecn: None, first_decode, remaining })));
+    };
+    match mode {
+        0 => {
+            // 1200 bytes that do not authenticate (tag byte 9), from another address
+            let mut v = vec![0x40u8, 2, 2, 2, 2, 2, 2, 2, 2, 11, 0x01];
+            v.resize(1199, 0);
+            v.push(9);
+            deliver(&mut conn, other, &v);
+            assert!(conn.path.remote == home);
+            assert!(conn.path.total_recvd == before, "{} undecryptable bytes from another address were credited to the current path", conn.path.total_recvd - before);
+            1
+        }
+        1 => {
+            // a genuine but reordered packet from another address, with a second (also old) packet coalesced behind a
+            // Handshake packet for which there are no keys any more: nothing migrates, nothing is credited
+            deliver_short(&mut conn, now, other, 5, &[0x01]);
+            assert!(conn.path.remote == home);
+            assert!(conn.path.total_recvd == before, "a reordered packet from another address was credited to the current path");
+            let mut v = vec![0xe0u8, 0, 0, 0, 1, 8, 2, 2, 2, 2, 2, 2, 2, 2, 8, 3, 3, 3, 3, 3, 3, 3, 3, 5, 7, 0x01, 0, 0, 0];
+            v.extend_from_slice(&[0x40, 2, 2, 2, 2, 2, 2, 2, 2, 6, 0x01, 0, 0, 0]);
+            deliver(&mut conn, other, &v);
+            assert!(conn.path.remote == home);
+            assert!(conn.path.total_recvd == before, "coalesced packets from another address were credited to the current path");
+            2
+        }
+        2 => {
+            let v = vec![0x40u8, 2, 2, 2, 2, 2, 2, 2, 2, 11, 0x01, 0, 0, 0];
+            deliver(&mut conn, home, &v);
+            assert!(conn.path.total_recvd == before + v.len() as u64, "a datagram from the path's own address was not credited in full");
+            4
+        }
+        _ => {
+            let v = vec![0x40u8, 2, 2, 2, 2, 2, 2, 2, 2, 12, 0x01, 0, 0, 0];
+            deliver(&mut conn, other, &v);
+            assert!(conn.path.remote == other, "the highest-numbered non-probing packet did not move the connection");
+            assert!(conn.path.total_recvd == v.len() as u64, "the datagram that caused the migration was not credited to the new path");
+            8
+        }
+    }
 }
 
 /// Native replay body for the E2 slice query `e2_migration_trigger_slice` (C15), on a real server that
